@@ -10,4 +10,10 @@ pub trait Write {
             Ok(_) => final(self).out() == old(self).out() + v@,
             Err(_) => exists|k: int| 0 <= k <= v@.len() && final(self).out() == old(self).out() + v@.subrange(0, k),
         };
+    /// std::io::Write::write (documented contract): ONE attempt that may accept only a prefix of the bytes and says how many
+    fn write(&mut self, v: &[u8]) -> (r: io::Result<usize>)
+        ensures match r {
+            Ok(n) => n <= v@.len() && final(self).out() == old(self).out() + v@.subrange(0, n as int),
+            Err(_) => final(self).out() == old(self).out(),
+        };
 }
